@@ -397,7 +397,7 @@ func (g *Gen) zeroOfSort(so Sort) string {
 	case SFn:
 		return "fn.nil"
 	case SF64:
-		return "(_ +zero 11 53)"
+		return "f.zero"
 	}
 	if strings.HasPrefix(string(so), "(Array") {
 		switch vs := Sort(arrayValueSort(string(so))); vs {
@@ -522,10 +522,15 @@ func (g *Gen) constVal(c *ssa.Const) Val {
 
 func fpLit(f float64) string {
 	b := math.Float64bits(f)
-	sign := b >> 63
-	exp := (b >> 52) & 0x7ff
-	man := b & ((1 << 52) - 1)
-	return fmt.Sprintf("(fp #b%01b #b%011b #b%052b)", sign, exp, man)
+	if b == 0 {
+		return "f.zero"
+	}
+	// a Go constant is never NaN or infinite; distinct literals are distinct uninterpreted values (their order is not modelled)
+	n := int64(b & 0x7fffffffffffffff)
+	if b>>63 == 1 {
+		n = -n - 1
+	}
+	return sx("f.lit", num(n))
 }
 
 func (g *Gen) val(v ssa.Value) Val {
